@@ -204,5 +204,23 @@ func allProps() []*propInfo {
 				{ID: "C10.7", Doc: "[dom] closed channels are removed", Run: ruleC10_7},
 			},
 		},
+		{
+			ID: "C16",
+			Explanation: "Static necessary conditions of 'no request can crash the server': a flow-sensitive abstract interpretation (K6: integer intervals, nilness, string emptiness, zero-time, booleans; bounded disjunctive states; request taint) of every implemented RPC method of publisherServer / subscriberServer / healthServer, inlining module-local callees that contain an explicit panic or receive a possibly-absent request sub-message, and the closures handed to the transaction runners. " +
+				"C16.1 no explicit panic (today: the precondition panics of the actions.New* constructors) is reachable for any request field values; C16.2 no request sub-message that may be absent is dereferenced (field access or non-nil-safe method) without a dominating nil test. " +
+				"C16.3 (rejected requests change nothing) = C09.1/C09.4/C09.5 evaluated under C09. " +
+				"NOT decided: index/slice bounds in general, resource exhaustion, hangs, panics inside third-party code, requests arriving on a stream after the first (their fields are treated as unconstrained but their sub-messages are only checked when dereferenced in the handler itself).",
+			Assumptions: []string{
+				"gRPC never passes a nil request; elements of repeated message fields are non-nil (protobuf decoding)",
+				"protobuf-generated Get* accessors, (*durationpb.Duration).AsDuration, (*timestamppb.Timestamp).AsTime, CheckValid/IsValid are nil-safe",
+				"isValid{Topic,Subscription,Snapshot}Name(s) == true implies s != \"\" (four non-empty segments; confirmed from their bodies)",
+				"only (time.Time).IsZero tests establish that a time is non-zero (CheckValid does not)",
+			},
+			Rules: []ruleFn{
+				{ID: "C16.1", Doc: "[K6][K10] panic preconditions refuted at every request-tainted call site; nil dereference of absent sub-messages (C16.2)", Run: ruleC16},
+				{ID: "C09.4", Doc: "[dom] (shared, C16.3) one operation, one transaction", Run: ruleC09_4},
+				{ID: "C09.5", Doc: "[dom] (shared, C16.3) no error after commit", Run: ruleC09_5},
+			},
+		},
 	}
 }
